@@ -44,7 +44,9 @@ func runC03(c *core.Ctx) *core.Outcome {
 	cfg.Backend = world.BackMem
 	cfg.CacheSize = 0
 	cfg.FinishAlways = true // keep the stored session in step with the model when a render is refused
-	a := app.Generate(t, c03Profile(cfg.FlagCount))
+	prof := c03Profile(cfg.FlagCount)
+	prof.PreludeIncmp = t.Chance(1, 4)
+	a := app.Generate(t, prof)
 	if err := a.Validate(); err != nil {
 		panic("generator produced ill-formed app: " + err.Error())
 	}
